@@ -9,7 +9,7 @@ NAMES = ["OP_DUP", "DUP", "OP_ADD", "ADD", "OP_1", "OP_0", "0", "OP_IF", "OP_ELS
          "OP_1ADD", "OP_1SUB", "OP_NEGATE", "OP_ABS", "OP_NOT", "OP_SUB", "OP_BOOLAND", "OP_NUMEQUAL", "OP_LESSTHAN", "OP_MIN", "OP_MAX",
          "OP_WITHIN", "OP_SHA256", "OP_HASH160", "OP_RIPEMD160", "OP_DEPTH", "OP_2DUP", "OP_3DUP", "OP_2DROP", "OP_NIP", "OP_OVER", "OP_TUCK",
          "OP_IFDUP", "OP_CODESEPARATOR", "OP_NOP", "OP_NOP1", "OP_CHECKLOCKTIMEVERIFY", "OP_NOP2", "OP_CAT", "OP_MUL", "OP_2DIV", "OP_RESERVED",
-         "OP_VER", "OP_CHECKSIG", "OP_TRUE", "OP_FALSE", "OP_x61", "x76", "OP_xff", "xff", "OP_xFF", "OP_xfe", "OP_xba", "OP_xf", "OP_1NEGATE", "-1", "OP_16"]
+         "OP_VER", "OP_CHECKSIG", "OP_CHECKSIGVERIFY", "OP_CHECKMULTISIG", "OP_CHECKMULTISIGVERIFY", "OP_CHECKSIGADD", "OP_TRUE", "OP_FALSE", "OP_x61", "x76", "OP_xff", "xff", "OP_xFF", "OP_xfe", "OP_xba", "OP_xf", "OP_1NEGATE", "-1", "OP_16"]
 INTS = ["1", "2", "5", "16", "17", "-1", "-5", "127", "128", "255", "256", "-128", "1000", "65535", "2147483647", "-2147483647",
         "2147483648", "99999999999", "007", "-0", "+5", "1e3"]
 HEXES = ["00", "01", "81", "ff", "0100", "ff00", "0102030405", "80", "0000", "deadbeef", "zz", "0x05", "abc", "ABCD", "1234", "10",
@@ -71,6 +71,15 @@ def lines(ctx):
     for sv in (0, 1, 3):
         for k in (200, 201, 202):
             out.append(exec_line(sv, R.STD, b"\x51", [], b"", 0, ["OP_NOP"] * k + ["OP_1"], weight=(1000 if sv == 3 else None)))
+    # OP_CHECKMULTISIG adds its key count to the operation count before it can fail: a failing one leaves nothing behind, in any version
+    for sv in (0, 1, 2, 3):
+        w = 1000 if sv == 3 else None
+        scr = kp if sv == 2 else b"\x51"
+        for toks in (["20", "OP_CHECKMULTISIG"], ["3", "OP_CHECKMULTISIG"], ["0", "0", "0", "OP_CHECKMULTISIG"], ["0", "0", "1", "OP_CHECKMULTISIG"],
+                     ["1", "0", "0", "OP_CHECKMULTISIG"], ["21", "OP_CHECKMULTISIG"], ["0", "0", "5", "4", "3", "2", "1", "5", "OP_CHECKMULTISIGVERIFY"],
+                     ["20", "OP_CHECKMULTISIG"] * 2, ["OP_1", "OP_IF", "20", "OP_CHECKMULTISIG"]):
+            for fl in (R.STD, 0):
+                out.append(exec_line(sv, fl, scr, [b"\x01"], b"", 0, toks, weight=w))
     # on generated deep sessions
     base = ctx.driver_gen(["run", ctx.seed + 1600, 300 if quick else 5000, 60, 0])
     for l in base:
